@@ -35,7 +35,7 @@ EXPLANATION = (
     "of the reader adds or multiplies an unbounded 32-bit value taken from the input before widening it to "
     "the 64-bit size it is compared with (directly or through a local); (10) a member of the reader object "
     "that is freed outside the destructor is assigned again before the function returns, so the destructor "
-    "cannot free it a second time. (14) an index that was range-checked was checked against the entry count of the very array it then subscripts (R13 index-count: schema leaf arrays by num_leaves, a row group's chunks by its num_columns, ...; the check may sit in a callee the index was handed to) - a row group may claim more chunks than the schema has leaves. (15) R44 as in C08.12: no 64-bit length decoded from the file reaches a `position + length` test unbounded. (16) R45 as in C03.4: no pointer into the footer bytes is stored in parsed metadata (a use after free under the stdio reader). Decides these "
+    "cannot free it a second time. (14) an index that was range-checked was checked against the entry count of the very array it then subscripts (R13 index-count: schema leaf arrays by num_leaves, a row group's chunks by its num_columns, ...; the check may sit in a callee the index was handed to) - a row group may claim more chunks than the schema has leaves. (15) R44 as in C08.12: no 64-bit length decoded from the file reaches a `position + length` test unbounded. (16) R45 as in C03.4: no pointer into the footer bytes is stored in parsed metadata (a use after free under the stdio reader). (R46) a buffer grown because a count from the file does not fit is grown to at least that count: the capacity stored in a `request > capacity` branch is the request, an expression every arm of which contains it, or a value the branch compares with it (clamp or doubling loop) - geometric growth alone serves the first request and under-allocates a later one above twice the capacity. Decides these "
     "clauses, not arithmetic adequacy of every guard outside the grids, total running time, nor leaks "
     "inside zlib/zstd.")
 
@@ -44,6 +44,76 @@ FRD = "src/reader/file_reader.c"
 PT = "src/thrift/parquet_types.c"
 UNTRUSTED_OFFSETS = {"dictionary_page_offset", "data_page_offset", "data_start_offset", "current_page",
                      "index_page_offset"}
+
+
+def _predicate_checked(P, fn, d, subs):
+    """`if (!in_range(..., idx, ...)) return ...;` dominating the subscripts, where in_range() returns the conjunction
+    `idx >= 0 && idx < bound` of its parameter (any spelling): the name of the predicate, else None."""
+    if fn.cfg is None:
+        return None
+    w = fn.cfg.where()
+    for n in fn.body.walk():
+        if n.k != "IfStmt":
+            continue
+        kids = [x for x in n.c if x is not None]
+        if not any(r.k in ("ReturnStmt", "GotoStmt") for r in kids[1].walk()):
+            continue
+        leaves = []
+
+        def split(c):
+            c = c.strip()
+            if c.k == "BinaryOperator" and c.op == "||":
+                split(c.c[0])
+                split(c.c[1])
+            else:
+                leaves.append(c)
+        split(kids[0])
+        for lf in leaves:
+            if not (lf.k == "UnaryOperator" and lf.op == "!"):
+                continue
+            call = lf.c[0].strip_casts()
+            if call.k != "CallExpr" or not call.callee:
+                continue
+            pos = [i for i, a in enumerate(call.args()) if a.strip_casts().k == "DeclRefExpr" and a.strip_casts().get("d") == d]
+            if not pos:
+                continue
+            for g in P.by_name.get(call.callee, []):
+                if g.body is None or pos[0] >= len(g.params):
+                    continue
+                rets = g.returns()
+                if len(rets) != 1 or not rets[0].c or rets[0].c[0] is None:
+                    continue
+                gd = g.params[pos[0]]["d"]
+                conj = []
+
+                def split_and(c):
+                    c = c.strip()
+                    if c.k == "BinaryOperator" and c.op == "&&":
+                        split_and(c.c[0])
+                        split_and(c.c[1])
+                    else:
+                        conj.append(c)
+                split_and(rets[0].c[0])
+                lo = hi = False
+                for c in conj:
+                    if c.k != "BinaryOperator" or c.op not in ("<", "<=", ">", ">="):
+                        continue
+                    l, r = c.c[0].strip_casts(), c.c[1].strip_casts()
+                    op = c.op
+                    if r.k == "DeclRefExpr" and r.get("d") == gd:
+                        l, r = r, l
+                        op = {"<": ">", "<=": ">=", ">": "<", ">=": "<="}[op]
+                    if not (l.k == "DeclRefExpr" and l.get("d") == gd):
+                        continue
+                    if (op == ">=" and r.cv == 0) or (op == ">" and r.cv == -1):
+                        lo = True
+                    elif op == "<" and r.cv is None:
+                        hi = True
+                if lo and hi:
+                    first = min((x for x in n.walk() if x.i in w), key=lambda x: x.i, default=None)
+                    if first is not None and all(fn.cfg.node_dominates(first, s_) for s_ in subs):
+                        return call.callee
+    return None
 
 
 def _range_guards(fn, d):
@@ -305,6 +375,10 @@ def _capacity_backed(ctx):
 
 def run(ctx):
     P = ctx.P
+    ctx.clause("C04.17 a buffer grown because a count from the file does not fit is grown to at least that count (R46)")
+    from ..rules import growth
+    ngr = growth.check(ctx, [f for f in P.lib_functions() if P.rel(f.file).startswith(("src/",))])
+    ctx.count("growth_branches", ngr)
     ctx.clause("C04.14 an index that was range-checked was checked against the entry count of the array it then subscripts (a row group may claim more chunks than the schema has leaves)")
     from ..rules import indexspace
     nic = indexspace.check_counts(ctx, P.funcs_under("src/reader/", "src/metadata/schema.c"))
@@ -312,7 +386,7 @@ def run(ctx):
     ctx.clause("C04.15 a 64-bit length decoded from the file does not reach `position + length` (directly or inside an availability helper) untested: the sum would wrap (rule shared with C08.12)")
     from ..rules import wrapsum
     nws = wrapsum.check(ctx, sorted(set(P.rel(f.file) for f in P.lib_functions() if P.rel(f.file).startswith(("src/thrift/", "src/reader/", "src/core/", "src/metadata/")))))
-    ctx.floor("C04 lengths handed to position + length tests", nws, 10)
+    ctx.count("wrap_sum_sites_judged", nws)      # (vacuity is covered by the wrapsum control twins: a wrap-free rewrite of the helpers has no instance)
     ctx.clause("C04.16 parsed metadata does not point into the footer bytes the stdio reader frees after parsing (rule shared with C03.4)")
     from ..rules import borrowed
     nbr, _bn = borrowed.check(ctx, sorted(set(P.rel(f.file) for f in P.lib_functions() if P.rel(f.file).startswith(("src/thrift/", "src/reader/", "src/metadata/", "src/core/")))))
@@ -631,6 +705,11 @@ def run(ctx):
                             if clo and chi and all(fn.cfg.node_dominates(c, s_) for s_ in subs):
                                 ok = True
                                 how = "checked by %s first" % c.callee
+            if not ok:
+                pc = _predicate_checked(P, fn, p["d"], subs)
+                if pc:
+                    ok = True
+                    how = "range predicate %s() tested first" % pc
             ctx.ob("R6.index", key, P.where(fn.body),
                    "%s: `%s` is range-checked (< 0 || >= bound, error return) before it subscripts an array" % (fn.name, p["n"]),
                    ok, how)
